@@ -41,6 +41,11 @@ type material struct {
 	ecCert  *x509.Certificate
 	edKey   ed25519.PrivateKey
 
+	// the material-encodings sub-workload: a client pair whose certificate was issued by an intermediate CA
+	interCert *x509.Certificate // intermediate, signed by CA one
+	chainKey  *ecdsa.PrivateKey
+	chainCert *x509.Certificate // leaf, signed by the intermediate
+
 	files map[string]string
 	cache tls.ClientSessionCache
 }
@@ -264,6 +269,62 @@ func mint() (mt *material, err error) {
 		return nil, err
 	}
 	if err = write("ec-other.key", b); err != nil {
+		return nil, err
+	}
+	// other encodings of usable material (sub-workload "material encodings"): PKCS#8 key files, one file holding
+	// certificate and key (Certificate and Key name the same path), a certificate file of leaf plus intermediate
+	pkcs8PEM := func(k crypto.PrivateKey) ([]byte, error) {
+		der, err := x509.MarshalPKCS8PrivateKey(k)
+		if err != nil {
+			return nil, err
+		}
+		return pem.EncodeToMemory(&pem.Block{Type: "PRIVATE KEY", Bytes: der}), nil
+	}
+	if b, err = pkcs8PEM(mt.ecKey); err != nil {
+		return nil, err
+	}
+	if err = write("ec-pkcs8.key", b); err != nil {
+		return nil, err
+	}
+	if b, err = pkcs8PEM(mt.rsaKey); err != nil {
+		return nil, err
+	}
+	if err = write("rsa-pkcs8.key", b); err != nil {
+		return nil, err
+	}
+	if b, err = ecPEM(mt.ecKey); err != nil {
+		return nil, err
+	}
+	if err = write("ec-combined.pem", append(append([]byte{}, certPEM(mt.ecCert)...), b...)); err != nil {
+		return nil, err
+	}
+	mt.files["ec-combined.crt"], mt.files["ec-combined.key"] = mt.files["ec-combined.pem"], mt.files["ec-combined.pem"]
+	interKey, err := ecdsa.GenerateKey(elliptic.P256(), rand.Reader)
+	if err != nil {
+		return nil, err
+	}
+	it := template("verif intermediate of CA one")
+	it.IsCA, it.BasicConstraintsValid, it.KeyUsage = true, true, x509.KeyUsageCertSign|x509.KeyUsageDigitalSignature
+	ider, err := x509.CreateCertificate(rand.Reader, it, mt.ca1, &interKey.PublicKey, mt.ca1Key)
+	if err != nil {
+		return nil, err
+	}
+	if mt.interCert, err = x509.ParseCertificate(ider); err != nil {
+		return nil, err
+	}
+	if mt.chainKey, err = ecdsa.GenerateKey(elliptic.P256(), rand.Reader); err != nil {
+		return nil, err
+	}
+	if mt.chainCert, err = mintLeaf("chain client", &mt.chainKey.PublicKey, mt.interCert, interKey, false, nil, nil); err != nil {
+		return nil, err
+	}
+	if err = write("chain.crt", append(append([]byte{}, certPEM(mt.chainCert)...), certPEM(mt.interCert)...)); err != nil {
+		return nil, err
+	}
+	if b, err = ecPEM(mt.chainKey); err != nil {
+		return nil, err
+	}
+	if err = write("chain.key", b); err != nil {
 		return nil, err
 	}
 	_, _, extraPEM, err := mintCA("verif unrelated CA in the bundle")
